@@ -15,6 +15,9 @@ property files against it.  Expected: exactly the theorems about the edited func
                         (its proof fails; spool_malloc_agrees, core_calloc_agrees, spool_calloc_agrees are
                         proved FROM it — calloc calls malloc — and are reported as resting on a failed theorem)
   E5..E12  guards whose removal only loses `fault = false`, constructor / destructor edits (see SCENARIOS)
+  P*, A*, S*, D*, Q*   one breaking edit per translated function of pqueue / array / stack / deque / queue
+      (D18, D19, D22: `upper_pow_two` with a shift removed / reversed / undefined -> upper_pow_two_agrees;
+       DT1..DT3: `& (capacity - 1)` -> `% capacity`, the same value on power-of-two capacities -> keeps or NOTE)
   W1..W4   integer widths other than 64 bit and macros inside a translated file -> the translator refuses
   H   behaviour-preserving: local `used` renamed, `++x` written `x = x + 1`, `--x` written `x -= 1`,
       a redundant block and cast                                                    -> nothing fails
@@ -34,10 +37,11 @@ LEAN = ROOT / "lean"
 GEN = LEAN / "CollectionsC" / "Generated"
 PROPS = [LEAN / "CollectionsC" / "Properties" / "C19Gen.lean", LEAN / "CollectionsC" / "Properties" / "C12Gen.lean",
          LEAN / "CollectionsC" / "Properties" / "C10Gen.lean", LEAN / "CollectionsC" / "Properties" / "C01Gen.lean",
-         LEAN / "CollectionsC" / "Properties" / "C09Gen.lean"]
+         LEAN / "CollectionsC" / "Properties" / "C05Gen.lean", LEAN / "CollectionsC" / "Properties" / "C09Gen.lean"]
 LIB = LEAN / ".lake" / "build" / "lib" / "lean"
 RB, SP, PQ, AR, ST = "src/cc_ring_buffer.c", "src/memory/cc_static_pool.c", "src/cc_pqueue.c", "src/cc_array.c", "src/cc_stack.c"
-PROP_OF = {RB: "C19Gen", SP: "C12Gen", PQ: "C10Gen", AR: "C01Gen", ST: "C09Gen"}
+DQ, QU = "src/cc_deque.c", "src/cc_queue.c"
+PROP_OF = {RB: "C19Gen", SP: "C12Gen", PQ: "C10Gen", AR: "C01Gen", ST: "C09Gen", DQ: "C05Gen", QU: "C09Gen"}
 
 SCENARIOS = [
     ("baseline", [], set()),
@@ -144,6 +148,90 @@ SCENARIOS = [
      [(ST, "cc_stack_destroy", "stack->mem_free(stack);", "")], {"stack_destroy_agrees"}),
     ("S3 stack new_conf: the header is not released when the array cannot be built",
      [(ST, "cc_stack_new_conf", "conf->mem_free(stack);", "")], {"stack_new_conf_agrees"}),
+    ("D1 deque conf_init: default capacity + 1",
+     [(DQ, "cc_deque_conf_init", "conf->capacity   = DEFAULT_CAPACITY;", "conf->capacity   = DEFAULT_CAPACITY + 1;")],
+     {"deque_conf_init_agrees"}),
+    ("D2 deque new_conf: `first` starts at 1",
+     [(DQ, "cc_deque_new_conf", "deque->first      = 0;", "deque->first      = 1;")], {"deque_new_conf_agrees"}),
+    ("D3 deque new: the configuration is not initialised",
+     [(DQ, "cc_deque_new", "cc_deque_conf_init(&conf);", "")], {"deque_new_agrees"}),
+    ("D4 deque destroy: the buffer is not released",
+     [(DQ, "cc_deque_destroy", "deque->mem_free(deque->buffer);", "")], {"deque_destroy_agrees"}),
+    ("D5 deque add_first: the size is not incremented",
+     [(DQ, "cc_deque_add_first", "deque->size++;", "")], {"add_first_tail"}),
+    ("D6 deque add_last: the mask is dropped (`last` leaves the buffer)",
+     [(DQ, "cc_deque_add_last", "(deque->last + 1) & (deque->capacity - 1)", "(deque->last + 1)")], {"add_last_tail"}),
+    ("D7 deque remove_first: the size is not decremented",
+     [(DQ, "cc_deque_remove_first", "deque->size--;", "")], {"deque_remove_first_agrees"}),
+    ("D8 deque remove_last: `last` is not stored",
+     [(DQ, "cc_deque_remove_last", "deque->last = last;", "")], {"deque_remove_last_agrees"}),
+    ("D9 deque get_at: `>=` -> `>`",
+     [(DQ, "cc_deque_get_at", "index >= deque->size", "index > deque->size")], {"deque_get_at_agrees"}),
+    ("D10 deque get_first: emptiness guard dropped",
+     [(DQ, "cc_deque_get_first", "if (deque->size == 0)\n        return CC_ERR_OUT_OF_RANGE;\n", "")], {"deque_get_first_agrees"}),
+    ("D11 deque get_last: reads the slot at `last` instead of the one before it",
+     [(DQ, "cc_deque_get_last", "(deque->last - 1) & (deque->capacity - 1)", "deque->last & (deque->capacity - 1)")],
+     {"deque_get_last_agrees"}),
+    ("D12 deque size returns the capacity",
+     [(DQ, "cc_deque_size", "return deque->size;", "return deque->capacity;")], {"deque_size_agrees"}),
+    ("D13 deque capacity returns the size",
+     [(DQ, "cc_deque_capacity", "return deque->capacity;", "return deque->size;")], {"deque_capacity_agrees"}),
+    ("D14 deque expand_capacity: `<< 1` -> `<< 2`",
+     [(DQ, "expand_capacity", "deque->capacity << 1", "deque->capacity << 2")], {"deque_expand_agrees"}),
+    ("D15 deque expand_capacity: the old buffer is released before it is copied",
+     [(DQ, "expand_capacity", "    copy_buffer(deque, new_buffer, NULL);\n    deque->mem_free(deque->buffer);",
+       "    deque->mem_free(deque->buffer);\n    copy_buffer(deque, new_buffer, NULL);")], {"deque_expand_agrees"}),
+    ("D16 deque copy_buffer: the wrapped tail is copied to the front of the new buffer",
+     [(DQ, "copy_buffer", "memcpy(&(buff[e]),", "memcpy(&(buff[0]),")], {"deque_copy_buffer_agrees"}),
+    ("D17 deque copy_buffer: `last > first` -> `last >= first` (a full deque with first = last is copied straight)",
+     [(DQ, "copy_buffer", "deque->last > deque->first", "deque->last >= deque->first")], {"deque_copy_buffer_agrees"}),
+    ("D18 deque upper_pow_two: the shift by 4 removed (the smear no longer reaches every lower bit)",
+     [(DQ, "upper_pow_two", "    n |= n >> 4;\n", "")], {"upper_pow_two_agrees"}),
+    ("D19 deque upper_pow_two: `n |= n >> 1` -> `n |= n << 1`",
+     [(DQ, "upper_pow_two", "n |= n >> 1;", "n |= n << 1;")], {"upper_pow_two_agrees"}),
+    ("D20 deque add_first: `&` -> `|` in the index mask",
+     [(DQ, "cc_deque_add_first", "(deque->first - 1) & (deque->capacity - 1)", "(deque->first - 1) | (deque->capacity - 1)")],
+     {"add_first_tail"}),
+    ("D21 deque remove_first: `& (capacity - 1)` -> `& capacity`",
+     [(DQ, "cc_deque_remove_first", "(deque->first + 1) & (deque->capacity - 1)", "(deque->first + 1) & deque->capacity")],
+     {"deque_remove_first_agrees"}),
+    ("D22 deque upper_pow_two: `n >> 16` -> `n >> 64` (an undefined shift: the helper now reports a fault, its callers change shape)",
+     [(DQ, "upper_pow_two", "n |= n >> 16;", "n |= n >> 64;")], {"upper_pow_two_agrees", "deque_new_conf_agrees"}),
+    ("D23 deque expand_capacity: `capacity << 1` -> `~capacity` (bitwise complement)",
+     [(DQ, "expand_capacity", "deque->capacity << 1", "~deque->capacity")], {"deque_expand_agrees"}),
+    ("DT1 deque get_at: `& (capacity - 1)` -> `% capacity` (the same value on a power-of-two capacity)",
+     [(DQ, "cc_deque_get_at", "(deque->first + index) & (deque->capacity - 1)", "(deque->first + index) % deque->capacity")],
+     "tie"),
+    ("DT2 deque add_last / remove_first: `& (capacity - 1)` -> `% capacity`",
+     [(DQ, "cc_deque_add_last", "(deque->last + 1) & (deque->capacity - 1)", "(deque->last + 1) % deque->capacity"),
+      (DQ, "cc_deque_remove_first", "(deque->first + 1) & (deque->capacity - 1)", "(deque->first + 1) % deque->capacity")],
+     "tie"),
+    ("DT3 deque remove_last: `(last - 1) & (capacity - 1)` -> `(last - 1) % capacity` (the same value only because 2^64 is a multiple of the capacity)",
+     [(DQ, "cc_deque_remove_last", "(deque->last - 1) & (deque->capacity - 1)", "(deque->last - 1) % deque->capacity")],
+     "tie"),
+    ("HD deque behaviour-preserving: `size++` as `+= 1`, `n--` as `n -= 1`, `|=` written out, a local renamed",
+     [(DQ, "cc_deque_add_first", "deque->size++;", "deque->size += 1;"),
+      (DQ, "upper_pow_two", "n--;", "n -= 1;"),
+      (DQ, "upper_pow_two", "n |= n >> 8;", "n = n | (n >> 8);"),
+      (DQ, "cc_deque_get_at", "size_t i = (deque->first + index) & (deque->capacity - 1);", "size_t slot = (deque->first + index) & (deque->capacity - 1);"),
+      (DQ, "cc_deque_get_at", "deque->buffer[i]", "deque->buffer[slot]")],
+     set()),
+    ("Q1 queue enqueue forwards to add_last instead of add_first",
+     [(QU, "cc_queue_enqueue", "return cc_deque_add_first(queue->d, element);", "return cc_deque_add_last(queue->d, element);")],
+     {"queue_enqueue_agrees"}),
+    ("Q2 queue destroy: the header is not released",
+     [(QU, "cc_queue_destroy", "queue->mem_free(queue);", "")], {"queue_destroy_agrees"}),
+    ("Q3 queue new_conf: the header is not released when the deque cannot be built",
+     [(QU, "cc_queue_new_conf", "conf->mem_free(queue);", "")], {"queue_new_conf_agrees"}),
+    ("Q4 queue poll takes from the front",
+     [(QU, "cc_queue_poll", "return cc_deque_remove_last(queue->d, out);", "return cc_deque_remove_first(queue->d, out);")],
+     {"queue_poll_agrees"}),
+    ("Q5 queue peek looks at the front",
+     [(QU, "cc_queue_peek", "return cc_deque_get_last(queue->d, out);", "return cc_deque_get_first(queue->d, out);")],
+     {"queue_peek_agrees"}),
+    ("Q6 queue size reports the deque's capacity",
+     [(QU, "cc_queue_size", "return cc_deque_size(queue->d);", "return cc_deque_capacity(queue->d);")],
+     {"queue_size_agrees"}),
     ("R1a audit3: pqueue destroy releases the struct twice and leaks the buffer",
      [(PQ, "cc_pqueue_destroy", "pq->mem_free(pq->buffer);", "pq->mem_free(pq);")], {"pq_destroy_agrees"}),
     ("R1b audit3: pqueue new_conf releases the (NULL) buffer instead of the struct on the refusal path",
@@ -353,7 +441,9 @@ def main():
             "CollectionsC.Generated.FuncsRbuf", "CollectionsC.Generated.FuncsSpool",
             "CollectionsC.Generated.FuncsPQueue", "CollectionsC.Generated.FuncsArray", "CollectionsC.Generated.FuncsStack",
             "CollectionsC.Proofs.PQueue", "CollectionsC.Proofs.ArrayMem", "CollectionsC.Properties.C01Gen",
-            "CollectionsC.Model.Stack"])
+            "CollectionsC.Model.Stack", "CollectionsC.Generated.FuncsDeque", "CollectionsC.Generated.FuncsQueue",
+            "CollectionsC.Proofs.Deque", "CollectionsC.Proofs.DequeBits", "CollectionsC.Model.Queue",
+            "CollectionsC.Properties.C05Gen"])
     if r.returncode != 0:
         raise SystemExit("self-test: could not build the imports of C19Gen/C12Gen:\n" + r.stdout[-2000:])
     ok = True
